@@ -1300,6 +1300,202 @@ def rule_R7indexmap(text, applied):
     return text
 
 
+def rule_R28(text, applied):
+    """`X.iter().map(|&P| BODY).collect::<Vec<_>>()` (innermost first, so nested map/collect chains become nested
+    loops) -> the loop that is the std definition of map + collect into a Vec:
+      { let mut moN_ = Vec::new(); let mut miN_: usize = 0;
+        while miN_ < X.len() { let P = X[miN_]; miN_ += 1; let meN_ = BODY; moN_.push(meN_); }
+        moN_ }
+    The closure body is verbatim; a `return` inside it is outside the subset."""
+    cnt = 0
+    while True:
+        m_text = mask(text)
+        ms = list(re.finditer(r"([\w\.]+?)\s*\.\s*iter\(\)\s*\.\s*map\s*\(\s*\|\s*&\s*(\w+)\s*\|", m_text))
+        if not ms:
+            break
+        m = ms[-1]          # the textually last one is innermost (or independent)
+        x, pvar = "".join(m.group(1).split()), m.group(2)
+        op = m_text.index("(", m_text.index("map", m.end(1)))
+        cp = match_close(m_text, op)
+        body = text[m.end():cp].strip().rstrip(",").strip()
+        if re.search(r"\breturn\b", mask(body)):
+            raise ExtractError("R28: `return` in a map closure (outside the subset)")
+        cm = re.match(r"\s*\.\s*collect\s*::\s*<\s*Vec\s*<\s*_\s*>\s*>\s*\(\s*\)", m_text[cp + 1:])
+        if not cm:
+            raise ExtractError("R28: map(..) is not followed by collect::<Vec<_>>() (outside the subset)")
+        end = cp + 1 + cm.end()
+        n = cnt
+        code = (f"{{ let mut mo{n}_ = Vec::new(); let mut mi{n}_: usize = 0; while mi{n}_ < {x}.len() {{ let {pvar} = {x}[mi{n}_]; mi{n}_ += 1; "
+                f"let me{n}_ = ")
+        tail = f"; mo{n}_.push(me{n}_); }} mo{n}_ }}"
+        # keep the body's own lines in place
+        b_start = m.end() + (len(text[m.end():cp]) - len(text[m.end():cp].lstrip()))
+        b_end = b_start + len(body)
+        text = text[:m.start()] + _keep_newlines(text[m.start():b_start], code) + body + _keep_newlines(text[b_end:end], tail) + text[end:]
+        cnt += 1
+    if cnt:
+        applied.append(f"R28x{cnt}")
+    return text
+
+
+def rule_R27(text, applied):
+    """`for (A, B) in X.iter().zip(Y.iter()).flat_map(|(&P, Q)| { STMTS; P.iter().copied().zip(Q.iter().copied()) }) {`
+    -> the nested index loops that are the std definition of zip + flat_map (the closure runs once per outer
+    pair, lazily, before that pair's inner items; each zip stops at the shorter side):
+      let mut zoN_: usize = 0; while zoN_ < X.len() && zoN_ < Y.len() { let P = X[zoN_]; let Q = &Y[zoN_]; zoN_ += 1; STMTS;
+        let mut ziN_: usize = 0; while ziN_ < P.len() && ziN_ < Q.len() { let (A, B) = (P[ziN_], Q[ziN_]); ziN_ += 1; BODY } }
+    `break` in BODY (it would leave both loops) is outside the subset; `continue` keeps its meaning."""
+    cnt = 0
+    while True:
+        m_text = mask(text)
+        m = re.search(r"\bfor\s*\(\s*(\w+)\s*,\s*(\w+)\s*\)\s*in\s+([\w\.]+?)\s*\.\s*iter\(\)\s*\.\s*zip\(\s*([\w\.]+?)\s*\.\s*iter\(\)\s*\)\s*\.\s*flat_map\s*\(\s*\|\s*\(\s*&\s*(\w+)\s*,\s*(\w+)\s*\)\s*\|\s*\{", m_text)
+        if not m:
+            break
+        a, b, x, y, pv, qv = m.group(1), m.group(2), "".join(m.group(3).split()), "".join(m.group(4).split()), m.group(5), m.group(6)
+        cob = m.end() - 1
+        ccb = match_close(m_text, cob)
+        cbody = text[cob + 1:ccb]
+        mcb = mask(cbody)
+        # split statements / tail expression of the closure
+        d_, last = 0, -1
+        for q, ch in enumerate(mcb):
+            if ch in "([{":
+                d_ += 1
+            elif ch in ")]}":
+                d_ -= 1
+            elif ch == ";" and d_ == 0:
+                last = q
+        stm, tail_e = cbody[:last + 1], cbody[last + 1:]
+        if not re.fullmatch(rf"\s*{pv}\s*\.\s*iter\(\)\s*\.\s*copied\(\)\s*\.\s*zip\(\s*{qv}\s*\.\s*iter\(\)\s*\.\s*copied\(\)\s*\)\s*", mask(tail_e)):
+            raise ExtractError("R27: the flat_map closure does not end in `P.iter().copied().zip(Q.iter().copied())` (outside the subset)")
+        if re.search(r"\breturn\b", mask(stm)):
+            raise ExtractError("R27: `return` in the flat_map closure (outside the subset)")
+        # after the closure: `)` then the loop body brace
+        k = ccb + 1
+        mm = re.match(r"\s*\)\s*\{", m_text[k:])
+        if not mm:
+            raise ExtractError("R27: unexpected text after the flat_map closure")
+        lob = k + mm.end() - 1
+        lcb = match_close(m_text, lob)
+        if re.search(r"\bbreak\b", m_text[lob:lcb]):
+            raise ExtractError("R27: `break` in the loop body (outside the subset)")
+        n = cnt
+        head1 = (f"let mut zo{n}_: usize = 0; while zo{n}_ < {x}.len() && zo{n}_ < {y}.len() {{ let {pv} = {x}[zo{n}_]; let {qv} = &{y}[zo{n}_]; zo{n}_ += 1; ")
+        head2 = (f" let mut zi{n}_: usize = 0; while zi{n}_ < {pv}.len() && zi{n}_ < {qv}.len() {{ let ({a}, {b}) = ({pv}[zi{n}_], {qv}[zi{n}_]); zi{n}_ += 1;")
+        text = (text[:m.start()] + _keep_newlines(text[m.start():cob + 1], head1) + stm + _keep_newlines(text[cob + 1 + len(stm):lob + 1], head2)
+                + text[lob + 1:lcb] + "} }" + text[lcb + 1:])
+        cnt += 1
+    if cnt:
+        applied.append(f"R27x{cnt}")
+    return text
+
+
+def rule_R8all(text, applied):
+    """`X.iter().all(|P| EXPR)` -> the loop that is the std definition of Iterator::all (short-circuit at the first
+    element for which EXPR is false): { let mut okN_ = true; let mut aiN_: usize = 0; while aiN_ < X.len() { let P = &X[aiN_];
+    aiN_ += 1; if !(EXPR) { okN_ = false; break; } } okN_ }"""
+    cnt = 0
+    while True:
+        m_text = mask(text)
+        m = re.search(r"([\w\.]+?)\s*\.\s*iter\(\)\s*\.\s*all\s*\(\s*\|\s*(\w+)\s*\|", m_text)
+        if not m:
+            break
+        x, pv = "".join(m.group(1).split()), m.group(2)
+        op = m_text.index("(", m_text.index("all", m.end(1)))
+        cp = match_close(m_text, op)
+        body = text[m.end():cp].strip()
+        if re.search(r"\breturn\b|\|", mask(body)):
+            raise ExtractError("R8all: closure body outside the subset")
+        n = cnt
+        code = (f"{{ let mut ok{n}_ = true; let mut ai{n}_: usize = 0; while ai{n}_ < {x}.len() {{ let {pv} = &{x}[ai{n}_]; ai{n}_ += 1; "
+                f"if !({body}) {{ ok{n}_ = false; break; }} }} ok{n}_ }}")
+        text = text[:m.start()] + _keep_newlines(text[m.start():cp + 1], code) + text[cp + 1:]
+        cnt += 1
+    if cnt:
+        applied.append(f"R8allx{cnt}")
+    return text
+
+
+def rule_R16od(text, applied):
+    """`let V = M.entry(K).or_default();` (std HashMap entry API; V: &mut T is used until the end of the enclosing
+    block) -> the value is taken out of the map (or created by Default), used as an owned local, and put back at the
+    end of the enclosing block: `let mut V = ventry_take(&mut M, K);` ... `ventry_put(&mut M, K, V);`  K must be a
+    Copy path/identifier.  Net effect on the map = the documented effect of entry().or_default() + in-place mutation."""
+    cnt = 0
+    while True:
+        m_text = mask(text)
+        m = re.search(r"\blet\s+(\w+)\s*=\s*([\w\.\s]+?)\s*\.\s*entry\(\s*(\w+)\s*\)\s*\.\s*or_default\(\)\s*;", m_text)
+        if not m:
+            break
+        v, mp, k = m.group(1), "".join(m.group(2).split()), m.group(3)
+        # end of the enclosing block
+        depth, q = 0, m.end()
+        while q < len(m_text):
+            ch = m_text[q]
+            if ch in "([{":
+                depth += 1
+            elif ch in ")]}":
+                if depth == 0:
+                    break
+                depth -= 1
+            q += 1
+        if q >= len(m_text) or m_text[q] != "}":
+            raise ExtractError("R16od: enclosing block not found")
+        text = (text[:m.start()] + _keep_newlines(text[m.start():m.end()], f"let mut {v} = ventry_take(&mut {mp}, {k});") + text[m.end():q]
+                + f"ventry_put(&mut {mp}, {k}, {v}); " + text[q:])
+        cnt += 1
+    if cnt:
+        applied.append(f"R16odx{cnt}")
+    return text
+
+
+def rule_R10site(text, applied, arg=None):
+    """call site of AtMostOnceTracker::add: `T.add(V, |a, b, positive| { B1 }, || { B2 })` -> `vamo_add(&mut T, V,
+    &mut self.state.F1, &mut self.state.F2, ..)` where F1, F2, .. are the places `self.state.F` that the two closure
+    bodies mention (what the closures capture by unique borrow; sorted, deduplicated).  The closure bodies are NOT
+    part of the rewritten text: B1 is verified as a block of its own, B2 is a call of a verified function, and `add`
+    itself is verified in unit amo against callback objects; vamo_add's contract is their ASSUMED composition."""
+    m_text = mask(text)
+    m = re.search(r"(\w+)\s*\.\s*add\s*\(", m_text)
+    if not m:
+        raise ExtractError("R10site: `.add(` call not found (lost anchor)")
+    op = m.end() - 1
+    cp = match_close(m_text, op)
+    inner = text[op + 1:cp]
+    mi_ = mask(inner)
+    am = re.match(r"\s*([\w\.]+)\s*,\s*\|([^|]*)\|\s*\{", mi_)
+    if not am:
+        raise ExtractError("R10site: `.add(V, closure, closure)` expected (outside the subset)")
+    c1o = am.end() - 1
+    c1c = match_close(mi_, c1o)
+    bm = re.match(r"\s*,\s*\|\s*\|\s*\{", mi_[c1c + 1:])
+    if not bm:
+        raise ExtractError("R10site: `.add(V, closure, closure)` expected (outside the subset)")
+    c2o = c1c + 1 + bm.end() - 1
+    c2c = match_close(mi_, c2o)
+    if mi_[c2c + 1:].strip().strip(",").strip():
+        raise ExtractError("R10site: `.add(V, closure, closure)` expected (outside the subset)")
+    parts = [am.group(1), inner[c1o:c1c + 1], inner[c2o:c2c + 1]]
+    places = sorted(set(re.findall(r"\bself\s*\.\s*state\s*\.\s*(\w+)", mask(parts[1]) + mask(parts[2]))))
+    others = set(re.findall(r"\bself\s*\.\s*(\w+)", mask(parts[1]) + mask(parts[2]))) - {"state"}
+    if others:
+        raise ExtractError(f"R10site: closures capture self.{sorted(others)[0]} (outside the subset)")
+    call = f"vamo_add(&mut {m.group(1)}, {parts[0].strip()}" + "".join(f", &mut self.state.{f}" for f in places) + ")"
+    text = text[:m.start()] + _keep_newlines(text[m.start():cp + 1], call) + text[cp + 1:]
+    applied.append(f"R10site({','.join(places)})")
+    return text
+
+
+def rule_R12frozen(text, applied, arg=None):
+    """`OWNER.FIELD.insert(k, v)` on an elsa::FrozenMap that is reached through a unique borrow of its owner ->
+    `OWNER.FIELD.vinsert_mut(k, v)` (cell erasure as in R12: same sequential effect, stated as a contract on `&mut`)."""
+    t, n = _sub_masked(text, r"\.\s*" + re.escape(arg) + r"\s*\.\s*insert\s*\(", lambda m, s_: _keep_newlines(s_[m.start():m.end()], f".{arg}.vinsert_mut("))
+    if not n:
+        raise ExtractError(f"R12frozen: `.{arg}.insert(` not found (lost anchor)")
+    applied.append(f"R12frozen({arg})x{n}")
+    return t
+
+
 def rule_R8bitget(text, applied):
     """`E.get(I).as_deref().copied()` on a BitVec -> `E.vget(I)` (stub method: Some(bit) in range, None beyond)."""
     t, n = _sub_masked(text, r"\.\s*get\(([^\)]+)\)\s*\.\s*as_deref\(\)\s*\.\s*copied\(\)", lambda m, s: f".vget({m.group(1).strip()})")
@@ -1574,7 +1770,7 @@ RULES = {
     "R25": rule_R25, "R7optake": rule_R7optake,
     "R23": rule_R23, "R24": rule_R24,
     "R16push": rule_R16push, "R22": rule_R22, "R22flat": rule_R22flat,
-    "R20": rule_R20, "R21": rule_R21, "R7stackrev": rule_R7stackrev, "R7pairs": rule_R7pairs, "R7indexmap": rule_R7indexmap,
+    "R20": rule_R20, "R21": rule_R21, "R7stackrev": rule_R7stackrev, "R7pairs": rule_R7pairs, "R7indexmap": rule_R7indexmap, "R12frozen": rule_R12frozen, "R28": rule_R28, "R27": rule_R27, "R8all": rule_R8all, "R16od": rule_R16od, "R10site": rule_R10site,
     "R1": rule_R1, "R2": rule_R2, "R2ref": rule_R2ref, "R3": rule_R3, "R4": rule_R4, "R5": rule_R5,
     "R8max": rule_R8max, "R8cmpmax": rule_R8cmpmax, "R8resize_none": rule_R8resize_none, "R9": rule_R9, "R8position": rule_R8position, "R8rotate": rule_R8rotate, "R12refcell": rule_R12refcell,
     "R8slice": rule_R8slice, "R7iter": rule_R7iter, "R8bitget": rule_R8bitget, "R8intonext": rule_R8intonext, "R8rposition": rule_R8rposition, "R8contains": rule_R8contains, "R12cell": rule_R12cell, "R8resize_veccap": rule_R8resize_veccap, "R8collectid": rule_R8collectid, "R8index": rule_R8index, "subst": rule_subst,
@@ -2019,6 +2215,8 @@ def process_template(template_path, emitter=None):
                 t = tl[i].strip()
                 if t.startswith("//@"):
                     cur = t[3:].strip()
+                    if cur in sections:
+                        raise ExtractError(f"{template_path}: duplicate section `//@{cur}` in the directive for {selector} (the first one would be lost)")
                     sections[cur] = ""
                 elif cur is not None:
                     sections[cur] += tl[i] + "\n"
